@@ -535,8 +535,8 @@ def shrink(case):
 
 
 def run(ctx):
-    E.run_table(ctx, CLASSES, DRIVER, ctx.n(30, 400), ctx.n(5, 30), "C35")
-    _run_los(ctx, ctx.n(40, 800))
+    E.run_table(ctx, CLASSES, DRIVER, ctx.n(24, 400), ctx.n(4, 30), "C35")
+    _run_los(ctx, ctx.n(30, 800))
     for _ in range(ctx.n(120, 1500)):
         c = _gen_nft(ctx.rng)
         ctx.stat("cls:" + c["cls"])
@@ -544,7 +544,7 @@ def run(ctx):
         r = nft_oracle(c)
         if r is not None:
             ctx.counterexample(c, r[0], r[1])
-    for _ in range(ctx.n(6, 100)):
+    for _ in range(ctx.n(4, 100)):
         c = _gen_sampling(ctx.rng)
         ctx.stat("cls:" + c["cls"])
         ctx.case(c, True)
